@@ -160,8 +160,8 @@ Qed.
 
 Lemma sys_tstep s l s' : In (l, s') (sys_next s) -> tstep s l s'.
 Proof.
-  unfold sys_next, sys_next_gen. rewrite !in_app_iff.
-  intros [H|[H|[H|[H|[H|[H|[H|H]]]]]]]; [| | | | | | |apply net_tstep; exact H].
+  unfold sys_next, sys_next_gen, sys_core. rewrite !in_app_iff.
+  intros [[H|[H|[H|[H|[H|[H|H]]]]]]|H]; [| | | | | | |apply net_tstep; exact H].
   - apply connect_tstep; exact H.
   - apply exec_tstep; exact H.
   - apply read_tstep; exact H.
